@@ -163,7 +163,11 @@ pub struct LargeCase {
 
 fn large_strategy(_tier: Tier) -> BoxedStrategy<LargeCase> {
     (
-        prop_oneof![reservation_strategy(1_000_000), reservation_strategy(300)],
+        prop_oneof![
+            4 => reservation_strategy(1_000_000),
+            4 => reservation_strategy(300),
+            1 => (1u64..1_000_000, any::<bool>()).prop_map(|(p, per)| if per { SupplySpec::Periodic { q: p, p } } else { SupplySpec::Constrained { q: p, d: p, p } }),
+        ],
         proptest::collection::vec(0u64..8_000_000, 1..12),
         proptest::collection::vec(0u64..3_000_000, 1..12),
         proptest::collection::vec((0u64..8, 0u64..4, any::<bool>()), 1..8),
@@ -238,6 +242,19 @@ fn check_large(c: &LargeCase) -> CheckResult {
             return Err(format!("default service_time({}) = {} but specialised = {}", dem, t2, t));
         }
         out.inner += 1;
+    }
+    if q == p {
+        // budget = period is a dedicated processor (values within the stated domain: the crate
+        // documents that it relies on run-time overflow detection, so arguments within a period of
+        // u64::MAX, where an intermediate sum overflows although the result would fit, are excluded)
+        let ded = supply::Dedicated::new();
+        for &x in c.deltas.iter().chain(c.demands.iter()).chain([1u64 << 40, (1u64 << 40) + p - 1, (1u64 << 40) / p * p].iter()) {
+            let a = guard(|| (su(sup.provided_service(d(x))), du(sup.service_time(s(x))))).map_err(|e| format!("budget = period = {}: query at {} panicked: {}", p, x, e))?;
+            if a != (su(ded.provided_service(d(x))), du(ded.service_time(s(x)))) {
+                return Err(format!("budget = period = {} differs from a dedicated processor at {}: {:?}", p, x, a));
+            }
+        }
+        out.label("budget=period");
     }
     if dl == p {
         let con = supply::Constrained::new(s(q), d(p), d(p));
